@@ -52,6 +52,12 @@ Theorem C14_received_is_a_subsequence : forall mr ms o take,
 Proof. exact ProducerConnProofs.received_subsequence. Qed.
 Print Assumptions C14_received_is_a_subsequence.
 
+(* ... with a bounded gap: every message that was not written in full is accounted for by a scheduled fault *)
+Theorem C14_partial_writes_gap_bound : forall mr ms o,
+  (length ms <= length (all_lines (fst (crun mr ms o))) + length o)%nat.
+Proof. exact ProducerConnProofs.crun_gap_bound. Qed.
+Print Assumptions C14_partial_writes_gap_bound.
+
 (* why no deadline may be set: an error that leaves the connection writable puts the retry behind the octets already sent *)
 Theorem C14_writable_after_error_corrupts :
   dead_ok false [AErr 2 false false; AOk] = false /\
